@@ -441,7 +441,8 @@ def check_c13(res, tier, replay):
     vlib.apply_obligations(res, 'C13')
     n = 40 if tier == 'quick' else 900
     cases = []
-    strat_pool = ['bh', 'macd', 'rsi', 'trix', 'bop', 'vwma', 'at1', 'at2', 'at3', 'at5', 'kdjA', 'kdjB']     # kdjA / kdjB share one Name()
+    # kdjA / kdjB share one Name(); 'zero' trades on sessions that close at 0 and ends with an undefined (NaN) outcome
+    strat_pool = ['bh', 'macd', 'rsi', 'trix', 'bop', 'vwma', 'at1', 'at2', 'at3', 'at5', 'kdjA', 'kdjB', 'zero', 'zero']
     if replay:
         cases = [tuple(c) for c in json.load(open(replay)).get('cases', [])]
     else:
@@ -449,6 +450,8 @@ def check_c13(res, tier, replay):
             ss = rng.sample(strat_pool, rng.randrange(1, 5))
             if rng.random() < 0.35:
                 ss = rng.sample(['at1', 'at2', 'at3', 'at5', 'bh'], rng.randrange(2, 6))     # nearly equal outcomes in the tight price regime
+                if rng.random() < 0.4:
+                    ss.insert(rng.randrange(1, len(ss)), 'zero')     # an undefined outcome between defined ones
             if rng.random() < 0.25 and not ({'kdjA', 'kdjB'} <= set(ss)):
                 ss = [x for x in ss if x not in ('kdjA', 'kdjB')] + ['kdjA', 'kdjB']     # two strategies of the same name in one run
                 rng.shuffle(ss)
